@@ -281,6 +281,12 @@ def _update_inv(L):
     moved = lambda x: z3.Select(L.seen, x)
     out.update(BlockSetUpdate.effect(L.c0, L.c, a, moved, w, own, z3.BoolVal(False)))
     out["target_ir_fixed"] = K.ir_of(L.c, ref(own)) == K.ir_of(L.c0, ref(own))
+    n = fresh("n", Int)
+    # attachment of every node so far (blocks are leaves: only the moved blocks changed IR)
+    out["ir_of_moved"] = z3.ForAll([n], z3.Implies(z3.Select(L.seen, VRef(n)), K.ir_of(L.c, n) == K.ir_of(L.c0, ref(own))),
+                                   patterns=[K.ir_of(L.c, n)])
+    out["ir_of_unmoved"] = z3.ForAll([n], z3.Implies(z3.And(K.is_node(L.c0, n), z3.Not(z3.Select(L.seen, VRef(n)))),
+                                                     K.ir_of(L.c, n) == K.ir_of(L.c0, n)), patterns=[K.ir_of(L.c, n)])
     return out
 
 
